@@ -243,3 +243,7 @@ fn c08_nested_leaf_per_object() {
   std::mem::forget(fx);
   std::mem::forget(fy);
 }
+
+// A per-object keyword harness (nested_str_values + case-insensitive compare for two
+// objects) was tried and times out at 900 s: nested_str_values collects through
+// filter_map, so the per-object vectors have symbolic lengths for the symbolic executor.
